@@ -57,7 +57,14 @@ def build_harness():
         txt = re.sub(r"replace github.com/coyim/otr3 => \S+", want, txt)
         open(modfile, "w").write(txt)
     t0 = time.time()
-    p = subprocess.run(["go", "build", "-tags", "verif", "-o", BIN, "./cmd/otrdrive"], cwd=HARNESS, env=GOENV,
+    # VERIF_COVER=<dir>: coverage-instrumented driver; every driver process writes its counters of the library's
+    # packages there (GOCOVERDIR) -- used to see which code of coyim/otr3 the checks never reach
+    cover = []
+    if os.environ.get("VERIF_COVER"):
+        os.makedirs(os.environ["VERIF_COVER"], exist_ok=True)
+        os.environ["GOCOVERDIR"] = os.environ["VERIF_COVER"]
+        cover = ["-cover", "-coverpkg=github.com/coyim/otr3,github.com/coyim/otr3/sexp"]
+    p = subprocess.run(["go", "build", "-tags", "verif"] + cover + ["-o", BIN, "./cmd/otrdrive"], cwd=HARNESS, env=GOENV,
                        capture_output=True, text=True)
     if p.returncode != 0:
         raise Broken("harness does not build against %s:\n%s" % (REPO, p.stdout + p.stderr))
@@ -103,6 +110,8 @@ def pol_rec(bits):
 
 def write_mc(d, consts, kf, invariants=(), properties=(), spec="Spec", export=False, view=True, constraint=None):
     """consts: PolA, PolB (bits), VerA, VerB, and the scalar constants of OTRModel."""
+    if consts.get("Multi"):
+        return write_mc_multi(d, consts, kf, invariants, properties, spec, export, view)
     for f in glob.glob(os.path.join(SPEC, "*.tla")):
         shutil.copy(f, d)
     prelude = list(consts.get("Prelude", []))
@@ -140,6 +149,36 @@ def write_mc(d, consts, kf, invariants=(), properties=(), spec="Spec", export=Fa
         cfg.append("ACTION_CONSTRAINT Emit")
     if constraint:
         cfg.append("CONSTRAINT MCConstraint")
+    cfg.append("CHECK_DEADLOCK FALSE")
+    open(os.path.join(d, "MC.cfg"), "w").write("\n".join(cfg) + "\n")
+
+
+def write_mc_multi(d, consts, kf, invariants=(), properties=(), spec="Spec", export=False, view=True):
+    """MC for OTRMulti.tla (one account logged in twice): consts PolA, PolB, PolC (bits), Prelude, MaxSend, ..."""
+    for f in glob.glob(os.path.join(SPEC, "*.tla")):
+        shutil.copy(f, d)
+    c = dict(MaxSend=0, MaxFlight=2, MaxQuery=0, MaxEnd=0, MaxTick=0)
+    c.update({k: v for k, v in consts.items() if k in c})
+    mc = ["---- MODULE MC ----", "EXTENDS OTRMulti",
+          'MCPol == [p \\in {"A","B","C"} |-> IF p = "A" THEN %s ELSE IF p = "B" THEN %s ELSE %s]'
+          % (pol_rec(consts.get("PolA", 2)), pol_rec(consts.get("PolB", 2)), pol_rec(consts.get("PolC", 2))),
+          "MCPrelude == <<" + ", ".join('[a |-> "%s", p |-> "%s"]' % (x["a"], x["p"]) for x in consts.get("Prelude", [])) + ">>", "===="]
+    open(os.path.join(d, "MC.tla"), "w").write("\n".join(mc) + "\n")
+    cfg = ["SPECIFICATION " + spec, "CONSTANTS"]
+    for k in KF_ALL:
+        cfg.append("  %s = %s" % (k, tla_val(bool(kf.get(k, False)))))
+    cfg += ["  Pol <- MCPol", "  Prelude <- MCPrelude"]
+    for k, v in c.items():
+        cfg.append("  %s = %s" % (k, tla_val(v)))
+    cfg.append("  Export = %s" % tla_val(export))
+    if view:
+        cfg.append("VIEW view")
+    if invariants:
+        cfg.append("INVARIANTS " + " ".join(invariants))
+    if properties:
+        cfg.append("PROPERTIES " + " ".join(properties))
+    if export:
+        cfg.append("ACTION_CONSTRAINT Emit")
     cfg.append("CHECK_DEADLOCK FALSE")
     open(os.path.join(d, "MC.cfg"), "w").write("\n".join(cfg) + "\n")
 
@@ -237,6 +276,9 @@ def export_schedules(name, consts, kf, workers=8, timeout=900, maxsched=None):
 
 
 def sched_record(steps, consts, sid, fam):
+    if consts.get("Multi"):
+        return dict(id=sid, fam=fam, multi=True, pol={"A": consts.get("PolA", 2), "B": consts.get("PolB", 2), "C": consts.get("PolC", 2)},
+                    ver={"A": 0, "B": 0, "C": 0}, setup="none", steps=steps)
     return dict(id=sid, fam=fam, pol={"A": consts.get("PolA", 3), "B": consts.get("PolB", 3)},
                 ver={"A": consts.get("VerA", 0), "B": consts.get("VerB", 0)}, setup="none", steps=steps)
 
